@@ -9,6 +9,21 @@
 
 namespace nmtools::index
 {
+    /**
+     * @brief Map a negative axis to ndim + axis (numpy convention).
+     * Non-negative axes and non-index arguments (None) are returned unchanged;
+     * unlike normalize_axis there is no range check and no maybe type.
+     */
+    template <typename axis_t, typename ndim_t>
+    constexpr auto wrap_axis([[maybe_unused]] const axis_t& axis, [[maybe_unused]] const ndim_t& ndim)
+    {
+        if constexpr (meta::is_index_v<axis_t>) {
+            return ((nm_index_t)axis < 0) ? nm_index_t((nm_index_t)ndim + (nm_index_t)axis) : nm_index_t(axis);
+        } else {
+            return axis;
+        }
+    } // wrap_axis
+
     struct normalize_axis_t {};
 
     /**
